@@ -862,9 +862,46 @@ func (t *Term) ref() string {
 		}
 	}
 	if t.op == OpVar {
-		return "|" + t.name + "|"
+		return "|" + smtName(t.name) + "|"
 	}
 	return fmt.Sprintf("t%d", t.id)
+}
+
+// smtName makes a variable name safe inside |...| quoting (no '|' or '\\');
+// unSmtName is its inverse.
+func smtName(n string) string {
+	if !strings.ContainsAny(n, "|\\%") {
+		return n
+	}
+	var sb strings.Builder
+	for i := 0; i < len(n); i++ {
+		c := n[i]
+		if c == '|' || c == '\\' || c == '%' {
+			fmt.Fprintf(&sb, "%%%02X", c)
+		} else {
+			sb.WriteByte(c)
+		}
+	}
+	return sb.String()
+}
+
+func unSmtName(n string) string {
+	if !strings.Contains(n, "%") {
+		return n
+	}
+	var sb strings.Builder
+	for i := 0; i < len(n); i++ {
+		if n[i] == '%' && i+2 < len(n) {
+			var v int
+			if _, err := fmt.Sscanf(n[i+1:i+3], "%02X", &v); err == nil {
+				sb.WriteByte(byte(v))
+				i += 2
+				continue
+			}
+		}
+		sb.WriteByte(n[i])
+	}
+	return sb.String()
 }
 
 // body returns the SMT-LIB2 expression defining a non-leaf term.
